@@ -274,6 +274,10 @@ def check_bytes(raw):
 
 def run_case(case):
     k = case['kind']
+    if k == 'custom-spec':
+        # read direction for a meta type registered through the documented hook: the check is C09's
+        from checks import c09_meta_codec as C09
+        return [f for f in C09.check_custom_spec() if f['clause'] in ('track-differs', 'raises')]
     if k == 'bytes':
         return check_bytes(case['bytes'])
     if k == 'write':
@@ -307,7 +311,7 @@ def _rs_opportunity_with_break(tr):
 
 def nontrivial(case):
     k = case['kind']
-    if k == 'bytes':
+    if k in ('bytes', 'custom-spec'):
         return False
     if k == 'write':
         return any(_rs_opportunity_with_break(tr) for tr in case['file']['tracks'])
@@ -396,6 +400,7 @@ def fuzz_seeds():
 
 
 def main(ctx):
+    ctx.check({'kind': 'custom-spec'}, classes=('custom-meta-spec',), sample=False)
     for b in fuzz_seeds():
         if len(b) >= 4 and b[:4] == b'MThd':
             if conformant_content(b) is None:
